@@ -355,6 +355,34 @@ def run_file(desc):
                 f'`gemato hash -H "{" ".join(names)}"` printed {toks!r} '
                 f'(rc={rc}), expected {want!r}', sig='cli-output')
         classes = ['files']
+        # several paths in one invocation: every line carries the values of
+        # the file it names (a large file first, a tiny one after it)
+        if len(data) >= 65535:
+            small = os.path.join(d, 'g')
+            with open(small, 'wb') as f:
+                f.write(b'tiny\n')
+            exp_small = R.digests(b'tiny\n', names)
+            for order in ((path, small), (small, path), (path, small, path)):
+                buf = io.StringIO()
+                with contextlib.redirect_stdout(buf):
+                    rc = gemato.cli.main(['gemato', 'hash', '-H',
+                                          ' '.join(names)] + list(order))
+                lines = [ln.split() for ln in buf.getvalue().splitlines()]
+                want_lines = []
+                for pth in order:
+                    e, n_ = (exp, len(data)) if pth == path else (
+                        exp_small, 5)
+                    w = ['DATA', pth, str(n_)]
+                    for nm in sorted(set(names)):
+                        w += [nm, e[nm]]
+                    want_lines.append(w)
+                if rc not in (0, None) or lines != want_lines:
+                    return violation(
+                        f'`gemato hash` with paths '
+                        f'{[os.path.basename(x) for x in order]} (sizes '
+                        f'{len(data)} and 5) printed {lines!r}, expected '
+                        f'{want_lines!r}', sig='cli-output:several-paths')
+            classes.append('several-paths')
         # same path, same size, same mtime, other content: a second look
         # must see the new content
         if len(data) > 0:
